@@ -631,24 +631,47 @@ def _shared_control():
 # ---------------------------------------------------------------------------
 # derived instance state must be invalidated by the removing operations
 
-def _self_effects(fn):
-    """instance attributes a method assigns, deletes or modifies in place"""
+def _self_effects(fn, data_only=False):
+    """instance attributes a method assigns, deletes or modifies in place;
+    data_only: only effects that store something computed from the call's
+    own values (a parameter, a local, another attribute's content) - a counter
+    `self.n = self.n + 1` or a constant flag carries nothing about an entry"""
     out = set()
     for x in ast.walk(fn):
-        tg = []
-        if isinstance(x, (ast.Assign, ast.Delete)):
+        tg, payload = [], []
+        if isinstance(x, ast.Assign):
+            tg, payload = list(x.targets), [x.value]
+        elif isinstance(x, ast.Delete):
             tg = list(x.targets)
         elif isinstance(x, (ast.AugAssign, ast.AnnAssign)):
-            tg = [x.target]
+            tg, payload = [x.target], [x.value] if x.value is not None else []
         elif isinstance(x, ast.Call) and isinstance(x.func, ast.Attribute) and \
                 x.func.attr in _MUTATORS:
-            tg = [x.func.value]
+            tg, payload = [x.func.value], list(x.args) + \
+                [k.value for k in x.keywords]
         for t in tg:
             for e in (t.elts if isinstance(t, (ast.Tuple, ast.List)) else [t]):
+                keys = []
                 while isinstance(e, ast.Subscript):
+                    keys.append(e.slice)
                     e = e.value
                 if isinstance(e, ast.Attribute) and \
                         isinstance(e.value, ast.Name) and e.value.id == "self":
+                    if data_only:
+                        carried = False
+                        for pz in payload + keys:
+                            fnames = {id(c.func) for c in ast.walk(pz)
+                                      if isinstance(c, ast.Call)}
+                            for n in ast.walk(pz):
+                                if isinstance(n, ast.Name) and n.id != "self" \
+                                        and id(n) not in fnames:
+                                    carried = True
+                                if isinstance(n, ast.Attribute) and \
+                                        isinstance(n.value, ast.Name) and \
+                                        n.value.id == "self" and n.attr != e.attr:
+                                    carried = True
+                        if not carried:
+                            continue
                     out.add(e.attr)
     return out
 
@@ -670,7 +693,7 @@ def derived_state_gaps(model, cls_qual, primary, removers):
     for name, fi in sorted(ci.methods.items()):
         if name == "__init__":
             continue
-        for a in _self_effects(fi.node):
+        for a in _self_effects(fi.node, data_only=True):
             if a not in primary:
                 writers.setdefault(a, fi)
     gaps = []
@@ -698,8 +721,10 @@ class Store(object):
         self._db = {}
         self._last = None
         self._index = {}
+        self._hits = 0
 
     def find(self, k):
+        self._hits = self._hits + 1
         if self._last is None or self._last[0] != k:
             self._last = (k, self._db[k])
         self._index[k] = True
